@@ -16,8 +16,8 @@ def _all(f):
     return True
 
 
-prop("C03", ["take_range", "sort_take", "limit_clause", "flatten_sort", "sort_infer", "lower_transform", "split_order", "sort_names"],
-     select={"split_order": lambda n: n.split(".", 1)[1] in ("RO1", "RO2", "RO3", "reorder_should_swap.safety", "SO1.Take.Compute", "IC1", "IC2", "IC3")},
+prop("C03", ["take_range", "sort_take", "limit_clause", "flatten_sort", "sort_infer", "lower_transform", "split_order", "sort_names", "dialect_flags"],
+     select={"dialect_flags": lambda n: n.rsplit(".", 1)[1] in ("use_fetch", "limit_for_bare_offset"), "split_order": lambda n: n.split(".", 1)[1] in ("RO1", "RO2", "RO3", "reorder_should_swap.safety", "SO1.Take.Compute", "IC1", "IC2", "IC3")},
      not_covered="alias_last_sorting and CidRedirector::redirect_sorts (how the sorting is re-expressed across cid redirects: folds over PQ with HashMap state); the driver loops of the sort inference (its step and the CTE record are under contract), "
                  "ensure_names for sort columns; the recursion of Flattener::fold_expr itself (the arms are proved against its contract)")
 
@@ -101,7 +101,7 @@ def _c04_split(name):
             or lab == "SO1.Take.Compute" or lab.endswith(".safety"))
 
 
-prop("C04", ["window_frame", "split_order", "lower_cols", "group_take", "lower_transform"], select={"split_order": _c04_split, "lower_cols": lambda n: n.split(".", 1)[1] in ("DC5", "DC6") or n.endswith(".safety")},
+prop("C04", ["window_frame", "split_order", "lower_cols", "group_take", "lower_transform", "dialect_flags"], select={"dialect_flags": lambda n: n.rsplit(".", 1)[1] == "supports_distinct_on", "split_order": _c04_split, "lower_cols": lambda n: n.split(".", 1)[1] in ("DC5", "DC6") or n.endswith(".safety")},
      not_covered="that the Flattener's log entries are the expressions whose columns end up in the window (the recursion of fold_expr is external; its Sort / Group / Window arms and the call it builds are under contract in flatten_sort / window_frame), row-count preservation, the window of the ROW_NUMBER() column")
 claim("C04",
       "PARTIAL. Proved on the real code, for all inputs: the window transform maps expanding / rolling:n / rows / range to exactly the documented "
@@ -143,8 +143,8 @@ claim("C14",
       "pr::Expr::write's use of needs_parenthesis and the non-binary arms' option handling are read off the text, not verified; chumsky's pratt() "
       "semantics assumed; regex / HashSet / Formatter / String operations are shims by contract.")
 
-prop("C05", ["select_shape", "star_exclude", "limit_select", "star_cols", "sstring_cols", "lineage_except", "sort_infer", "select_cols", "positional_map"],
-     select={"positional_map": lambda n: n.split(".", 1)[1] in ("PM1", "PM3", "PM4", "PM5", "activate_mapping.safety", "apply_active_mapping.safety", "select_arm.safety"), "sort_infer": lambda n: n.split(".", 1)[1] in ("SC1", "SC2", "SC3", "carry_sort_columns.safety", "carry_sort_columns.loop_exit")},
+prop("C05", ["select_shape", "star_exclude", "limit_select", "star_cols", "sstring_cols", "lineage_except", "sort_infer", "select_cols", "positional_map", "dialect_flags"],
+     select={"dialect_flags": lambda n: n.rsplit(".", 1)[1] in ("column_exclude", "supports_zero_columns"), "positional_map": lambda n: n.split(".", 1)[1] in ("PM1", "PM3", "PM4", "PM5", "activate_mapping.safety", "apply_active_mapping.safety", "select_arm.safety"), "sort_infer": lambda n: n.split(".", 1)[1] in ("SC1", "SC2", "SC3", "carry_sort_columns.safety", "carry_sort_columns.loop_exit")},
      not_covered="the rest of translate_wildcards (bookkeeping of the current star and of the exclusion sets), split_off_back / anchor_split behind extract_atomic, agreement "
                  "with the resolver's frame for every program, run-time expansion of `*`")
 claim("C05",
@@ -177,7 +177,7 @@ claim("C10",
       "HashSet<Ident> is a shim with a ghost set view; in resolve_guards lookup_in is external (it is under contract in name_lookup, where Module::lookup is external: the mutual recursion is cut at the contracts, its termination is not proved); resolve_ident_wildcard, resolve_ident_fallback, ambiguous_error, expr_of_func are "
       "external; the drain loop over named parameters is replaced by its contract (stated in the evidence).")
 
-prop("C09", ["ident_quote", "ids_names", "rel_names", "ident_regex"],
+prop("C09", ["ident_quote", "ids_names", "rel_names", "ident_regex", "dialect_flags"], select={"dialect_flags": lambda n: n.rsplit(".", 1)[1] == "ident_quote"},
      not_covered="content of the keyword tables; freshness of generated names against user names that are not registered yet; "
                  "the order in which assign_names visits the declarations (a user table named like a generated name is only protected if it is visited first)")
 claim("C09",
@@ -198,7 +198,7 @@ def _c16_ids(name):
     return lab in ("IG1", "IG2", "IG3", "SK1") or lab.startswith("gen.") or lab.startswith("skip.") or lab.endswith("IdGenerator::gen.safety") or "skip" in lab
 
 
-prop("C16", ["toposort", "rq_tables", "ids_names", "lower_cols", "rq_shape", "lineage_except"], select={"ids_names": _c16_ids},
+prop("C16", ["toposort", "rq_tables", "ids_names", "lower_cols", "rq_shape", "lineage_except", "rq_fold"], select={"ids_names": _c16_ids},
      not_covered="visibility of ids across joins / sub-pipelines (redirect_mappings over node_mapping: HashMap<usize, LoweredTarget>), lower_expr, "
                  "how push_select collects its columns, create_a_table_instance; toposort()'s Key->index map and driver loop")
 claim("C16",
@@ -234,7 +234,7 @@ def _safety(name):
 
 
 _ALL_UNITS = ["take_range", "sort_take", "split_order", "window_frame", "dialect_select", "ident_quote", "ids_names", "toposort", "rq_tables",
-              "select_shape", "span_units", "sql_prec", "prql_prec", "literals", "set_ops", "desugar", "resolve_guards", "lex_strings", "limit_clause", "static_eval", "operator_tpl", "rel_names", "lower_cols", "vec_utils", "group_take", "flatten_sort", "star_exclude", "std_arity", "limit_select", "rq_shape", "star_cols", "func_env", "json_lits", "cte_define", "type_meet", "fmt_strings", "concat_ops", "sstring_query", "sstring_cols", "lineage_except", "sort_infer", "setop_pairs", "setops_reach", "tuple_unpack", "resolver_unwraps", "name_lookup", "frame_decls", "select_cols", "lower_transform", "sort_names", "positional_map", "fmt_interp", "datetime_lit", "lex_numbers"]
+              "select_shape", "span_units", "sql_prec", "prql_prec", "literals", "set_ops", "desugar", "resolve_guards", "lex_strings", "limit_clause", "static_eval", "operator_tpl", "rel_names", "lower_cols", "vec_utils", "group_take", "flatten_sort", "star_exclude", "std_arity", "limit_select", "rq_shape", "star_cols", "func_env", "json_lits", "cte_define", "type_meet", "fmt_strings", "concat_ops", "sstring_query", "sstring_cols", "lineage_except", "sort_infer", "setop_pairs", "setops_reach", "tuple_unpack", "resolver_unwraps", "name_lookup", "frame_decls", "select_cols", "lower_transform", "sort_names", "positional_map", "fmt_interp", "datetime_lit", "lex_numbers", "rq_fold", "dialect_flags"]
 
 
 def _c12_split_order(n):
@@ -271,7 +271,7 @@ claim("C08",
       "sqlparser's Display (leaves doubled quotes alone - read in its source, validated by the thorough-tier sweep on SQLite) and sqlformat (white space only, given "
       "its precondition) are trusted; str::parse, str::replace and format! are uninterpreted; date/time/interval arms are not under contract.")
 
-prop("C07", ["set_ops", "limit_clause", "literals", "rel_names", "cte_define", "sql_prec", "static_eval", "positional_map"], select={"static_eval": lambda n: n.split(".", 1)[1] in ("SE2w", "SE2i", "SE2x", "static_eval_case.safety"), "literals": lambda n: n.split(".", 1)[1] in ("EI1", "expr_of_i64.safety", "TL1i", "TL1f", "NE1", "FM1"), "sql_prec": lambda n: n.split(".", 1)[1].startswith("NP4.std_neg") or n.endswith(".safety")},
+prop("C07", ["set_ops", "limit_clause", "literals", "rel_names", "cte_define", "sql_prec", "static_eval", "positional_map", "rq_fold", "dialect_flags"], select={"static_eval": lambda n: n.split(".", 1)[1] in ("SE2w", "SE2i", "SE2x", "static_eval_case.safety"), "literals": lambda n: n.split(".", 1)[1] in ("EI1", "expr_of_i64.safety", "TL1i", "TL1f", "NE1", "FM1"), "sql_prec": lambda n: n.split(".", 1)[1].startswith("NP4.std_neg") or n.endswith(".safety")},
      not_covered="scope of every table / column reference, per-dialect grammar, empty projections, relation alias uniqueness (assign_names), "
                  "which dialects besides SQLite have no bare OFFSET (MySQL, BigQuery: the handler table is assumed, not executable here)")
 claim("C07",
@@ -280,7 +280,7 @@ claim("C07",
       "(WR1, loop invariant, any number of CTEs) and carries every CTE (WR2); the set quantifier is ALL iff duplicates are kept and DISTINCT is written "
       "only where the dialect accepts it (SQ1-2); the LIMIT / OFFSET / FETCH clause is one the dialect's grammar has: FETCH never without OFFSET and ORDER BY and "
       "never together with LIMIT (LC1, LC1f), a dialect without bare OFFSET gets a LIMIT meaning `no limit` whenever it gets an OFFSET (LC3, LC4), row counts are "
-      "written as plain decimal digits (literals EI1); CTE names and relation aliases are unique in their scope (rel_names AN1-2, RN1-2); nested unary minus never produces the comment token `--` (sql_prec NP4.std_neg rows). a table compiled inline leaves its declaration NotYetDefined, so no reference is compiled to the name of a CTE that was never emitted (cte_define CI1); a `case` that survives constant folding has a WHEN branch - it is neither empty nor a lone `true => v`, which the generator would print as `CASE ELSE v END` (static_eval SE2w, inductive over the branch values); The sentence "
+      "written as plain decimal digits (literals EI1); CTE names and relation aliases are unique in their scope (rel_names AN1-2, RN1-2); nested unary minus never produces the comment token `--` (sql_prec NP4.std_neg rows). a table compiled inline leaves its declaration NotYetDefined, so no reference is compiled to the name of a CTE that was never emitted (cte_define CI1); a `case` that survives constant folding has a WHEN branch - it is neither empty nor a lone `true => v`, which the generator would print as `CASE ELSE v END` (static_eval SE2w, inductive over the branch values); the default RQ fold hands every expression and column id of a node to the folder - array elements, case branches, s-string items, operator arguments, window bounds, sort keys - so CidCollector / CidRedirector see every column reference when a pipeline is split into CTEs (rq_fold FK1 ... FD1, loops by invariant); The sentence "
       "'every accepted program compiles to valid SQL of the dialect' is NOT what is proved.",
       "dialect flags and translate_cte are parameters / externals of the slices; the rest of except(), translate_query and "
       "translate_set_ops_pipeline is dropped.")
